@@ -1,5 +1,6 @@
 (* Witnesses for the known findings of C28 (known_findings/C28.json): the full statements are false on the unchanged code. *)
 Require Import PonyV.Base.PyBase PonyV.Model.C28Tracked PonyV.Gen.Mutators PonyV.Model.C28Wrapped PonyV.Proofs.C28Proofs.
+#[local] Open Scope Z_scope.
 
 (* C28_covered is false: __iadd__ / __imul__ (list) and __ior__ (dict) mutate in CPython and are neither wrapped nor replaced *)
 Theorem C28_covered_list_refuted :
